@@ -5,7 +5,7 @@ on solved status / objective, error scale 0 == ignoring; optimum with constraint
 ends == exhaustive optimum over exactly the admissible routes (MinPathCover, MinFlowDecomp)."""
 import copy
 import networkx as nx
-import common, gen, gen2, zoo, props, oracles
+import common, gen, gen2, zoo, props, oracles, voracle
 import gencheck
 
 LEVEL = "proof"
@@ -129,6 +129,12 @@ def run(ctx):
                 lengths = {e: info["G"].edges[e].get("len", 1) for e in info["G"].edges()}; frac = info["coverage_length"]
             kmin = oracles.min_path_cover_bf(info["G"], ignore=info["ignore"], starts=info["starts"], ends=info["ends"],
                                              cons=info["cons"], coverage=frac, lengths=lengths)
+            vk = voracle.min_cover(ctx, info["G"], ignore=info["ignore"], starts=info["starts"], ends=info["ends"],
+                                   cons=info["cons"], coverage=frac, lengths=lengths)       # verified oracle (CoverOracle.min_cover_correct)
+            if vk != "too-large":
+                if kmin is not None and vk != kmin:
+                    ctx.report(f"harness inconsistency: Python oracle says {kmin}, the verified cover oracle says {vk}", rep, concrete=False)
+                kmin = vk; ctx.count("E2_optimum_with_features", "decided_by_verified_oracle")
             ctx.count("E2_optimum_with_features", "cases")
             if kmin is not None and kmin != len(routes):
                 ctx.report(f"MinPathCover returned {len(routes)} paths; the minimum over the admissible routes satisfying the constraints is {kmin}", rep); continue
@@ -193,6 +199,11 @@ def run(ctx):
             ctx.report(("MinPathCoverCycles: " if cyclic else "MinPathCover: ") + f"a constraint must not remove the cover requirement: {why}", rep); continue
         if not cyclic:
             kmin = oracles.min_path_cover_bf(G, cons=cons, coverage=cov, lengths=lengths)
+            vk = voracle.min_cover(ctx, G, cons=cons, coverage=cov, lengths=lengths)        # verified oracle
+            if vk != "too-large":
+                if kmin is not None and vk != kmin:
+                    ctx.report(f"harness inconsistency: Python oracle says {kmin}, the verified cover oracle says {vk}", rep, concrete=False)
+                kmin = vk; ctx.count("E2_adversarial_constraints", "decided_by_verified_oracle")
             if kmin is not None and kmin != len(routes):
                 ctx.report(f"MinPathCover returned {len(routes)} paths; minimum satisfying the constraints is {kmin}", rep); continue
             if kmin is not None and lengths:
